@@ -184,6 +184,8 @@ pub fn build<W: Write>(
                     let mut b0 = $b0;
                     common!(b0);
                     let mut b = b0.seipd_v1(rng(seed ^ 0xE1), sym);
+                    let own_key = || { use rand::RngCore; let mut k = vec![0u8; sym.key_size()]; rng(seed ^ 0x5E55).fill_bytes(&mut k); k };
+                    if cfg["set_session_key"] == "first" { b.set_session_key(own_key().into()).map_err(e)?; }
                     for (i, p) in cfg["passwords"].as_array().map(|a| a.as_slice()).unwrap_or(&[]).iter().enumerate() {
                         let pw: Password = p["pw"].as_str().unwrap().into();
                         b.encrypt_with_password(s2k(p["s2k"].as_str().unwrap_or("iterated"), seed ^ i as u64), &pw).map_err(e)?;
@@ -197,6 +199,8 @@ pub fn build<W: Write>(
                             b.encrypt_to_key(rng(seed ^ 0xA2), sub).map_err(e)?;
                         }
                     }
+                    // a late call: the builder may refuse it; if it does not, the recipients added before must still open the message
+                    if cfg["set_session_key"] == "late" { let _ = b.set_session_key(own_key().into()); }
                     let sk = b.session_key().as_ref().to_vec();
                     finish!(b);
                     Ok(Some(sk))
@@ -213,6 +217,8 @@ pub fn build<W: Write>(
                     let mut b0 = $b0;
                     common!(b0);
                     let mut b = b0.seipd_v2(rng(seed ^ 0xE2), sym, aead, chunk);
+                    let own_key = || { use rand::RngCore; let mut k = vec![0u8; sym.key_size()]; rng(seed ^ 0x5E55).fill_bytes(&mut k); k };
+                    if cfg["set_session_key"] == "first" { b.set_session_key(own_key().into()).map_err(e)?; }
                     for (i, p) in cfg["passwords"].as_array().map(|a| a.as_slice()).unwrap_or(&[]).iter().enumerate() {
                         let pw: Password = p["pw"].as_str().unwrap().into();
                         b.encrypt_with_password(rng(seed ^ 0xB0 ^ i as u64), s2k(p["s2k"].as_str().unwrap_or("iterated"), seed ^ i as u64), &pw)
@@ -227,6 +233,8 @@ pub fn build<W: Write>(
                             b.encrypt_to_key(rng(seed ^ 0xA2), sub).map_err(e)?;
                         }
                     }
+                    // a late call: the builder may refuse it; if it does not, the recipients added before must still open the message
+                    if cfg["set_session_key"] == "late" { let _ = b.set_session_key(own_key().into()); }
                     let sk = b.session_key().as_ref().to_vec();
                     finish!(b);
                     Ok(Some(sk))
@@ -267,6 +275,21 @@ pub fn pull<R: BufRead>(r: &mut R, pattern: usize) -> std::io::Result<Vec<u8>> {
             };
             r.consume(k);
         },
+        // a consumer that also asks for nothing: an empty destination is answered with Ok(0) and changes nothing
+        9002 => {
+            let mut b = [0u8; 10];
+            loop {
+                let z = r.read(&mut b[..0])?;
+                if z != 0 {
+                    return Err(std::io::Error::other("verif: read into an empty buffer returned octets"));
+                }
+                let k = r.read(&mut b)?;
+                if k == 0 {
+                    break;
+                }
+                out.extend_from_slice(&b[..k]);
+            }
+        }
         n => {
             let mut b = vec![0u8; n];
             loop {
